@@ -3,6 +3,7 @@ package generator
 import (
 	"net/http"
 	"path/filepath"
+	"strconv"
 	"strings"
 
 	"github.com/vkd/goag/specification"
@@ -134,6 +135,22 @@ func NewRouter(s *specification.Spec, ps []*PathItem, os []*Operation, opt Gener
 		root.Add(pi)
 	}
 	r.Routes = append(r.Routes, root.GetRoutes()...)
+
+	// route function names are built from the path segments; segments that
+	// differ only in characters dropped from identifiers (a-b / a_b), or a
+	// literal spelled like a sibling's variable, would yield the same name
+	used := make(map[string]struct{}, len(r.Routes))
+	for _, route := range r.Routes {
+		name := route.Name
+		for i := 2; ; i++ {
+			if _, ok := used[name]; !ok {
+				break
+			}
+			name = route.Name + "_" + strconv.Itoa(i)
+		}
+		used[name] = struct{}{}
+		route.Name = name
+	}
 
 	return r
 }
